@@ -22,10 +22,11 @@ def mkInst (hd cap dm : List Int) : Option Inst :=
   match hd with
   | n :: k :: split0 :: kg :: op :: _mode :: wn :: wd :: _ =>
     some { N := n.toNat, K := k.toNat, split0 := split0.toNat, KG := kg.toNat, cap := fn1 cap,
-           D := fn2 n.toNat dm, openMode := op != 0, wNum := wn, wDen := wd }
+           D := fn2 n.toNat dm, openMode := op != 0, wNum := wn, wDen := wd,
+           start := (hd.getD 10 0).toNat }
   | _ => none
 
-/-- `mdcpdp.episode N K split0 KG open mode wNum wDen specK specH | cap | specCap | D N² | actions`
+/-- `mdcpdp.episode N K split0 KG open mode wNum wDen specK specH start | cap | specCap | D N² | actions`
 mode: 0 minmax, 1 minsum, 2 lateness (reward scaled by wDen). -/
 def episode (toks : List String) : Option String := do
   let secs ← parseSections toks
